@@ -40,6 +40,7 @@ def elemSizes (name : String) : ElemSizes :=
   | "SO3" => ⟨4, 3, 3, 4, 3⟩
   | "SE3" => ⟨7, 6, 3, 4, 4⟩
   | "SE_2_3" => ⟨10, 9, 3, 5, 5⟩
+  | "SGal3" => ⟨11, 10, 3, 5, 5⟩
   | "R1" => ⟨1, 1, 1, 2, 2⟩
   | "R2" => ⟨2, 2, 2, 3, 3⟩
   | "R3" => ⟨3, 3, 3, 4, 4⟩
